@@ -248,6 +248,26 @@ func observe(p *an.Path, v *an.Expr, raw string, maxExpr *an.Expr, base an.Env, 
 	}
 	o.nf = nf
 	sym, single := singleSym(nf)
+	if _, isConst := nf.IsConst(); isConst {
+		// `if user == K { return K }`: the constant stands for the user's value on this path
+		for _, a := range p.Atoms {
+			x, y, op, ok := effCmp(a)
+			if !ok || op != token.EQL {
+				continue
+			}
+			xn, okx := an.Norm(x)
+			yn, oky := an.Norm(y)
+			if !okx || !oky {
+				continue
+			}
+			if s, ok := singleSym(xn); ok && isFreeSym(s) && nfSame(yn, nf) {
+				nf, sym, single = xn, s, true
+			} else if s, ok := singleSym(yn); ok && isFreeSym(s) && nfSame(xn, nf) {
+				nf, sym, single = yn, s, true
+			}
+		}
+		o.nf = nf
+	}
 	if !single || !isFreeSym(sym) || (o.maxNF != nil && nfSame(nf, o.maxNF)) {
 		return o // exact value (constant or a form over other values)
 	}
